@@ -305,3 +305,19 @@ for _k, _t in _R9.items():
         CHECKS[_k]['text'] = CHECKS[_k]['text'].rstrip() + _t
         if _k not in ('C01', 'C13', 'C18') and 'witness evaluation' not in CHECKS[_k]['technique']:
             CHECKS[_k]['technique'] = CHECKS[_k]['technique'] + ' + ' + _R9_ENGINE
+
+# ---- round 10 additions
+_R10 = {
+    'C01': ' pivot-guard: every pivot square root of try_cholesky is dominated by `pivot > 0` being true (zero and NaN pivots fall back to pivoted LU).',
+    'C02': ' At every grid point of pdf/pmf the return sites reachable for that point are evaluated as well (path-sensitive: disjunctive support guards).',
+    'C06': ' NaN polarity of the convergence test also through return sites (`if change >= tol { return false } true`).',
+    'C08': ' every-sample: every return site of a one-sample update helper counts the sample; raw-moment-difference: no variance / covariance / standard deviation '
+           'is a raw second moment minus a product of raw first moments (closed forms of all eight routines).',
+    'C13': ' lag-count: the summation range of acovf holds max(0, n - |k|) terms on exact (n, k) witnesses, however it is indexed.',
+    'C17': ' binom: any overflow bail-out is evaluated under the recurrence invariant c = C(n, i-1) for every (n, k) with n <= 70 whose coefficient fits in 64 bits.',
+    'C18': ' Mutators of an embedded object\'s own type applied to a field (`self.sampler.set_alpha(v)`) are composed: the field becomes a literal with untouched '
+           'components marked, and equality with what new() stores is shown by induction over mutator histories.',
+}
+for _k, _t in _R10.items():
+    if _k in CHECKS:
+        CHECKS[_k]['text'] = CHECKS[_k]['text'].rstrip() + _t
